@@ -182,7 +182,7 @@ def _is_child_type(ty, enum_markers):
     return any(m in ty for m in enum_markers)
 
 
-def arm_events(facts, f, adt_suffix, ctor_name, include_aggs=(), sub_dispatch=None, region_extra=None):
+def arm_events(facts, f, adt_suffix, ctor_name, include_aggs=(), sub_dispatch=None, region_extra=None, extra_seed=None):
     """Per variant of the widest `match` on `adt_suffix` in f:
        {variant idx: {"region", "events": [{"ctor","args":[labels...],"fields":[names]|None,"line","block"}], "labels": Labels}}
     ctor_name(callee) -> canonical constructor name or None. include_aggs: ADT suffixes whose aggregates count as events."""
@@ -194,7 +194,9 @@ def arm_events(facts, f, adt_suffix, ctor_name, include_aggs=(), sub_dispatch=No
     # several variants may share a target (or-patterns): group
     for vi, tgt in arms.items():
         region = shape.arm_region(f, tgt)
-        L = shape.Labels(f, region, shape.variant_field_seed(adt_suffix))
+        vseed = shape.variant_field_seed(adt_suffix)
+        seed = vseed if extra_seed is None else (lambda p, a=vseed, b=extra_seed: list(a(p) or []) + list(b(p) or []))
+        L = shape.Labels(f, region, seed)
         events = []
         for bb, blk in enumerate(f.blocks):
             if blk["cl"] or bb not in region:
